@@ -99,9 +99,17 @@ def check_constraints(sol, meta):
 
 # ---------------------------------------------------------------- timelines
 
+class T(tuple):
+    """comparable (value, infinitesimal) pair that prints as q or q+k*eps"""
+    def __str__(self):
+        return str(self[0]) if not self[1] else f"{self[0]}{'+' if self[1] > 0 else '-'}{abs(self[1])}eps"
+    __repr__ = __str__
+    __format__ = lambda self, spec: str(self)
+
+
 def w(v):
     """('num', q, inf) -> comparable pair"""
-    return (v[1], v[2])
+    return T((v[1], v[2]))
 
 
 def active_atoms(sol):
